@@ -983,7 +983,7 @@ func ruleC04Lexical(c *core.Ctx) {
 			return false
 		}
 		m := paramObj(fn, "xref")
-		stores := mapStores(g, m)
+		stores := expandStores(g, mapStores(g, m))
 		o.Require(len(stores) >= 1, "no store into the table found")
 		handled := map[int64]bool{}
 		o.Count(3)
@@ -1010,22 +1010,12 @@ func ruleC04Lexical(c *core.Ctx) {
 					var vals []string
 					for _, vc := range copyCases(g, st.V, e) {
 						if vc.V != st.V {
-							// executed for this type, and still the value at the store
-							under := env.ReachSet(g, starts, func(v *core.V) bool { return v == vc.V }, isDef)
-							others := map[*core.V]bool{}
+							// the definition whose value is seen at the store, for this type
+							var defs []*core.V
 							if obj := core.ObjOf(info, e); obj != nil {
-								for _, d := range defVertices(g, obj) {
-									if d != vc.V {
-										others[d] = true
-									}
-								}
+								defs = defVertices(g, obj)
 							}
-							var from []*core.V
-							for _, ed := range vc.V.Succs {
-								from = append(from, ed.To)
-							}
-							live := env.ReachSet(g, from, func(v *core.V) bool { return v == st.V }, func(v *core.V) bool { return others[v] || isDef(v) })
-							if !under[k] || !live[k] {
+							if !liveDefs(env, g, starts, st.V, defs)[k][vc.V] {
 								continue
 							}
 						}
@@ -1038,8 +1028,8 @@ func ruleC04Lexical(c *core.Ctx) {
 				}
 				switch k {
 				case 0:
-					if field("Pos") != "-1" {
-						o.Fail("free entry is stored with Pos %s, want -1", field("Pos"))
+					if p := field("Pos"); p != "-1" && p != "int64(-1)" {
+						o.Fail("free entry is stored with Pos %s, want -1", p)
 					}
 				case 1:
 					if field("Pos") != "a" || !strings.Contains(field("Generation"), "b") {
@@ -1114,7 +1104,7 @@ func ruleC04Lexical(c *core.Ctx) {
 			}
 			return false
 		}
-		for _, st := range mapStores(g, m) {
+		for _, st := range expandStores(g, mapStores(g, m)) {
 			st := st
 			kinds := env.ReachSet(g, starts, func(v *core.V) bool { return v == st.V }, isKW)
 			fields := compositeFields(info, st.Value)
@@ -1136,22 +1126,12 @@ func ruleC04Lexical(c *core.Ctx) {
 					var vals []string
 					for _, vc := range copyCases(g, st.V, e) {
 						if vc.V != st.V {
-							// executed for this type, and still the value at the store
-							under := env.ReachSet(g, starts, func(v *core.V) bool { return v == vc.V }, isKW)
-							others := map[*core.V]bool{}
+							// the definition whose value is seen at the store, for this type
+							var defs []*core.V
 							if obj := core.ObjOf(info, e); obj != nil {
-								for _, d := range defVertices(g, obj) {
-									if d != vc.V {
-										others[d] = true
-									}
-								}
+								defs = defVertices(g, obj)
 							}
-							var from []*core.V
-							for _, ed := range vc.V.Succs {
-								from = append(from, ed.To)
-							}
-							live := env.ReachSet(g, from, func(v *core.V) bool { return v == st.V }, func(v *core.V) bool { return others[v] || isKW(v) })
-							if !under[k] || !live[k] {
+							if !liveDefs(env, g, starts, st.V, defs)[k][vc.V] {
 								continue
 							}
 						}
